@@ -295,6 +295,10 @@ pub struct FRec {
     /// bit i set: string field i uses the full field width (no NUL terminator), as `__attribute_nonstring__` allows
     #[serde(default)]
     pub full: u8,
+    /// bit i set: string field i carries stale non-NUL bytes behind its NUL terminator (a re-used utmp slot);
+    /// the value of the field still ends at the first NUL
+    #[serde(default)]
+    pub stale: u8,
 }
 
 #[derive(Clone, Debug, Serialize, Deserialize, PartialEq, Eq)]
@@ -357,6 +361,11 @@ impl FixedFile {
                     for (i, f) in l.strs.iter().enumerate() {
                         let s = str_value_full(i, r.serial, f.cap, r.full);
                         b[f.off..f.off + s.len()].copy_from_slice(s.as_bytes());
+                        if r.stale & (1 << i) != 0 {
+                            for (k, x) in b[f.off + s.len()..f.off + f.cap].iter_mut().enumerate().skip(1) {
+                                *x = b"QRST"[k % 4];
+                            }
+                        }
                     }
                     if let Some((_, o)) = l.pid {
                         put(&mut b, o, 4, r.pid as i64);
@@ -403,11 +412,12 @@ pub fn fixed_file(max_recs: usize, layouts_allowed: Vec<usize>) -> BoxedStrategy
         1i32..60000,
         0i16..8,
         prop_oneof![9 => Just(0u8), 1 => 1u8..16],
+        prop_oneof![9 => Just(0u8), 1 => 1u8..16],
     );
     (prop::sample::select(layouts_allowed), 1_000_000_000i64..1_800_000_000, prop::collection::vec(rec, 1..=max_recs))
         .prop_map(|(layout, base, recs)| FixedFile {
             layout,
-            recs: recs.into_iter().enumerate().map(|(i, (ds, usec, null, pid, typ, full))| FRec { sec: base + ds, usec, null, pid, typ, serial: i as u32, full }).collect(),
+            recs: recs.into_iter().enumerate().map(|(i, (ds, usec, null, pid, typ, full, stale))| FRec { sec: base + ds, usec, null, pid, typ, serial: i as u32, full, stale }).collect(),
         })
         .boxed()
 }
